@@ -102,7 +102,7 @@ def save_mesh_as_neuroglancer_vtk(file, vertices, triangles,
         file.write(f"POINT_DATA {vertices.shape[0]:d}\n")
         for vertex_attribute in vertex_attributes:
             name = vertex_attribute["name"]
-            assert re.match("\\s", name) is None
+            assert name and re.search("\\s", name) is None
             values = np.asarray(vertex_attribute["values"])
             assert values.shape[0] == vertices.shape[0]
             if values.ndim == 1:
